@@ -9,3 +9,4 @@ import LicenseExpr.Props.C13
 #print axioms LE.C13_lt_strict
 #print axioms LE.C13_normKey_sound
 #print axioms LE.C13_normKey_complete
+#print axioms LE.C13_normKey_idem
